@@ -166,7 +166,7 @@ type rangeState struct {
 
 func newEnc(p *Program, unit string) *Enc {
 	return &Enc{prog: p, ctx: newCtx(p), heapSrt: map[string]string{}, unit: unit, safety: true,
-		pureDecl: map[string]bool{}, inlineDepthMax: 4, usedTrusted: map[string]string{}, usedPurePkg: map[string]bool{}, oblSeq: map[string]int{}, noInline: map[string]bool{}}
+		pureDecl: map[string]bool{}, inlineDepthMax: 6, usedTrusted: map[string]string{}, usedPurePkg: map[string]bool{}, oblSeq: map[string]int{}, noInline: map[string]bool{}}
 }
 
 func (e *Enc) errorf(format string, a ...interface{}) {
@@ -370,6 +370,15 @@ func (e *Enc) assumeTypeInv(st *State, term string, t types.Type, guard string) 
 		e.ctx.assert(implies(guard, fmt.Sprintf("(or (= (s.arr %s) nil) (select %s (s.arr %s)))", term, e.allocArr(st), term)))
 	case *types.Pointer, *types.Map:
 		e.ctx.assert(implies(guard, fmt.Sprintf("(or (= %s nil) (select %s %s))", term, e.allocArr(st), term)))
+	case *types.Struct:
+		// fields of a struct value are well-typed values too (one level)
+		st2 := t.Underlying().(*types.Struct)
+		for i := 0; i < st2.NumFields(); i++ {
+			switch st2.Field(i).Type().Underlying().(type) {
+			case *types.Slice, *types.Pointer, *types.Map:
+				e.assumeTypeInv(st, e.ctx.structField(t, term, i), st2.Field(i).Type(), guard)
+			}
+		}
 	}
 }
 
